@@ -273,6 +273,12 @@ def gen_C15(g, tier):
         cs.append(Case('j.trace %s' % frs(g.rats(8)), 'cmp', 'random'))
         cs.append(Case('o.c15.inner %s %s %s %s' % (frs(a), frs(b), frs(c), fr(s)), 'orc', 'random'))
         cs.append(Case('o.c15.outer %s %s %s %s' % (frs(a), frs(b), frs(c), fr(s)), 'orc', 'random'))
+    # dyadic operands across 100 binary orders of magnitude between the two vectors
+    for _ in range(n):
+        ka, kb = g.randint(-50, 50), g.randint(-50, 50)
+        a = [F(g.randint(-31, 31)) * F(2) ** ka for _ in range(4)]; b = [F(g.randint(-31, 31)) * F(2) ** kb for _ in range(4)]
+        if g.random() < 0.5: a[0] = abs(a[0]) + F(2) ** ka; b[0] = abs(b[0]) + F(2) ** kb
+        cs.append(Case('o.c15.dyadic %s %s' % (frs(a), frs(b)), 'orc', 'dyadic-scale-ratio'))
     return cs
 
 
